@@ -203,7 +203,12 @@ func continueAfterRecovery(dir string, cfg Config, u *Universe, oo ObsOpts, reco
 	}
 	defer func() { h.Close() }()
 	const bucket, key = "post", "k"
-	n := 1 + (cp.Pos*13+cp.Torn+1)%90 // many alignments of the new record's end relative to what the crash left behind
+	// many alignments of the new record's end relative to what the crash left behind (half of them within
+	// the first dozen bytes after the shortest possible record)
+	n := 1 + (cp.Pos*13+cp.Torn+1)%90
+	if (cp.Pos+cp.Torn)%2 == 0 {
+		n = 1 + (cp.Pos*7+cp.Torn+1)%12
+	}
 	switch variant {
 	case 1:
 		n = int(cfg.Seg) * 6 / 10
